@@ -5,7 +5,8 @@ import (
 	"errors"
 	"fmt"
 	"net/http"
-	"regexp"
+	"strconv"
+	"strings"
 	"time"
 
 	"github.com/oauth2-proxy/oauth2-proxy/v7/pkg/apis/options"
@@ -69,11 +70,8 @@ func (s *SessionStore) Load(req *http.Request) (*sessions.SessionState, error) {
 // Clear clears any saved session information by writing a cookie to
 // clear the session
 func (s *SessionStore) Clear(rw http.ResponseWriter, req *http.Request) error {
-	// matches CookieName, CookieName_<number>
-	var cookieNameRegex = regexp.MustCompile(fmt.Sprintf("^%s(_\\d+)?$", regexp.QuoteMeta(s.Cookie.Name)))
-
 	for _, c := range req.Cookies() {
-		if cookieNameRegex.MatchString(c.Name) {
+		if isSessionCookieName(s.Cookie.Name, c.Name) {
 			clearCookie := s.makeCookie(req, c.Name, "", time.Hour*-1)
 
 			http.SetCookie(rw, clearCookie)
@@ -116,9 +114,8 @@ func (s *SessionStore) setSessionCookie(rw http.ResponseWriter, req *http.Reques
 	}
 	// Remove the cookies of an earlier, differently sized session that are
 	// not overwritten now, otherwise they shadow the new session on load.
-	cookieNameRegex := regexp.MustCompile(fmt.Sprintf("^%s(_\\d+)?$", regexp.QuoteMeta(s.Cookie.Name)))
 	for _, c := range req.Cookies() {
-		if _, ok := set[c.Name]; !ok && cookieNameRegex.MatchString(c.Name) {
+		if _, ok := set[c.Name]; !ok && isSessionCookieName(s.Cookie.Name, c.Name) {
 			http.SetCookie(rw, s.makeCookie(req, c.Name, "", time.Hour*-1))
 		}
 	}
@@ -201,6 +198,21 @@ func splitCookie(c *http.Cookie) []*http.Cookie {
 		cookies = append(cookies, newCookie)
 	}
 	return cookies
+}
+
+// isSessionCookieName reports whether name is the session cookie's name or the
+// name of one of its parts, exactly as splitCookieName produces it (long cookie
+// names are truncated there, so a pattern built from the full name misses them).
+func isSessionCookieName(cookieName, name string) bool {
+	if name == cookieName {
+		return true
+	}
+	i := strings.LastIndex(name, "_")
+	if i < 0 {
+		return false
+	}
+	count, err := strconv.Atoi(name[i+1:])
+	return err == nil && count >= 0 && name == splitCookieName(cookieName, count)
 }
 
 func splitCookieName(name string, count int) string {
